@@ -174,7 +174,9 @@ def _replace_case(keys, src, tgt, dens_known, portion_one=False):
                 # same cell volume: density scales with mass
                 E.eq('density_scales_with_mass', g.density * old_mass, rho * new_mass)
         else:
-            E.fact('density_stays_unknown', g.density is None, note=repr(g.density))
+            if len(want) > 1:
+                E.fact('density_stays_unknown', g.density is None, note=repr(g.density))
+            # (a result with a single atom left falls under "a single-atom formula defaults to that atom's density")
         E.fact('original_unchanged', dict(f.atoms).keys() == before.keys())
         for a in before:
             E.eq('original_atoms[%s]' % a, f.atoms[a], before[a])
@@ -265,7 +267,8 @@ def cases(tier):
     out = []
     ks = [('Xi', 'Y'), ('X', 'Xi', 'D', 'Y'), ('Xq', 'Y'), ('Xiq', 'Yq'), ('D', 'Dq', 'Y')]
     if th:
-        ks += [('X',), ('Xi',), ('Xq',), ('Xiq',), ('H', 'H1', 'D', 'T'), ('Xi', 'Xiq', 'Wi', 'Yi')]
+        ks += [('X',), ('Xi',), ('Xq',), ('Xiq',), ('H', 'H1', 'D', 'T'), ('Xi', 'Xiq', 'Wi', 'Yi'), ('Dq', 'Hq', 'Yq', 'T'), ('Xi', 'Xq', 'Xiq', 'X', 'Yi'),
+               ('C', 'N', 'Ca', 'Wi', 'Yq')]
     for k in ks:
         out.append(Case('natural_ratio[%s]' % '+'.join(k), _ratio_case(k), max_paths=mp, timeout_ms=to, portfolio=th))
     out.append(Case('tags[Xi+Y]', _tags_case(['Xi', 'Y'], None), max_paths=mp, timeout_ms=to))
@@ -277,7 +280,8 @@ def cases(tier):
            (('H', 'Y'), 'H', 'D', False, True), (('H1', 'D', 'Y'), 'H1', 'D', True, False), (('X', 'Y'), 'Z', 'D', True, False),
            (('X', 'Y'), 'Z', 'D', False, False), (('Xq', 'Y'), 'Xq', 'Xiq', True, False), (('H',), 'H', 'D', True, False)]
     if th:
-        rep += [(('X', 'Xi', 'Y'), 'X', 'Xi', True, False), (('H', 'H1', 'D', 'Y'), 'H1', 'H', True, False),
+        rep += [(('X', 'Xi', 'Y'), 'X', 'Xi', True, False), (('H', 'H1', 'D', 'Y'), 'H1', 'H', True, False), (('Xq', 'Xiq', 'Y'), 'Xiq', 'Xq', True, False),
+                (('D', 'T', 'H'), 'T', 'D', True, False), (('Xi', 'Y'), 'Xi', 'Y', True, False), (('Xi', 'Y'), 'Y', 'Xi', False, False),
                 (('H1', 'Y'), 'H1', 'H', False, True), (('Xi', 'Y', 'Z'), 'Y', 'Yi', True, True)]
     for keys, s, t, dk, p1 in rep:
         out.append(Case('replace[%s|%s->%s|%s|%s]' % ('+'.join(keys), s, t, 'rho' if dk else 'norho', 'p=1' if p1 else 'p'),
